@@ -252,9 +252,12 @@ def applicable_set_from_final_candidates(ctx):
             if not (isinstance(st, ast.Assign) and len(st.targets) == 1 and isinstance(st.targets[0], ast.Subscript) and is_self_attr(st.targets[0].value, selfname=rv)):
                 continue
             v = st.value
-            comp = v if isinstance(v, (ast.SetComp, ast.ListComp, ast.GeneratorExp)) else (v.args[0] if isinstance(v, ast.Call) and call_name(v) in ("set", "frozenset") and v.args and isinstance(v.args[0], (ast.SetComp, ast.ListComp, ast.GeneratorExp)) else None)
-            if comp is None or "__code__" not in src(comp):
+            if "__code__" not in src(v):
                 continue
+            comps = [x for x in ast.walk(v) if isinstance(x, (ast.SetComp, ast.ListComp, ast.GeneratorExp))]
+            if not comps:
+                continue
+            comp = comps[0]
             n += 1
             ctx.touch(m)
             base = dotted(comp.generators[0].iter)
@@ -673,3 +676,90 @@ def entry_parts_unconditional(ctx):
                 f"the copy is skipped when `{short(cond.test, 40) if cond else ''}` is false: after a rebuild in which a parameter lost its default, the live entry point keeps the stale defaults of the previous build",
             )
     return seen
+
+
+# ---------------------------------------------------------------------------------------- stored values are re-readable
+ONE_SHOT = ("filter", "map", "zip", "iter", "reversed", "enumerate", "itertools.chain", "chain", "itertools.islice", "islice")
+
+
+def tables_hold_rereadable_values(ctx):
+    """What the cache classes store in their tables is read again on later lookups: never a one-shot iterator."""
+    repo = ctx.repo
+    n = 0
+    for cls in A.cache_classes(repo):
+        for m in cls.methods.values():
+            rv = recv_name(m)
+            for st in all_stmts(m.node):
+                if not isinstance(st, ast.Assign):
+                    continue
+                tgts = [t for t in st.targets if isinstance(t, ast.Subscript) and (is_self_attr(t.value, selfname=rv) or (isinstance(t.value, ast.Name) and t.value.id == rv))]
+                if not tgts:
+                    continue
+                n += 1
+                ctx.touch(m)
+                v = st.value
+                lazy = isinstance(v, ast.GeneratorExp) or (isinstance(v, ast.Call) and (call_name(v) or "") in ONE_SHOT)
+                ctx.ob(
+                    f"{m.key}:stored-value-rereadable:{short(tgts[0], 30)}",
+                    m.loc(st),
+                    f"`{short(st, 50)}` stores a value that can be read any number of times",
+                    not lazy,
+                    f"`{short(v, 50)}` is a one-shot iterator: the first lookup that reads the entry consumes it, every later one sees it empty - the same call is answered differently the second time",
+                )
+    ctx.require(n >= 3, "expected stores into the tables of the cache classes")
+
+
+def per_position_lookup_ignores_cache(ctx):
+    """Interpret the per-position map's miss handler for a class with two bases, once on an empty cache and once on a
+    cache that already holds the (correct) entries of its bases: the result must be the same."""
+    repo = ctx.repo
+    tm = A.typemap(repo)
+    miss = tm.methods.get("__missing__")
+    ctx.require(miss is not None, f"{tm.key} lost __missing__")
+    ctx.touch(miss)
+    from ..metainterp import HostFn
+    from .resolveexec import Table
+
+    # real (host) classes as stand-ins: the code may ask for __base__, __mro__, type(t)
+    O = object
+    A_ = type("A", (O,), {})
+    Loud = type("Loud", (O,), {})
+    C = type("C", (A_, Loud), {})
+    hA, hL, hO = "handler-A", "handler-Loud", "handler-object"
+    layers = {C: [[A_, Loud], [O]], A_: [[A_], [O]], Loud: [[Loud], [O]], O: [[O]]}
+    sorter = A.layer_sorter(repo)
+
+    def run(prefill):
+        me = Table(entries={A_: {hA}, Loud: {hL}, O: {hO}}, types={A_, Loud, O})
+        for k, v in prefill.items():
+            dict.__setitem__(me, k, dict(v))
+        genv = {sorter.name: lambda cls, avail: [list(g) for g in layers[cls]], "type": type}
+        hi = HostInterp({n: m.node for n, m in tm.methods.items()}, me, {}, globals_env=genv, classes={}, functions={})
+        hi.host_types = hi.host_types + (Table,)
+        try:
+            return dict(hi.call_function(miss.node, [me, C], {}, {})), dict(me)
+        except Raised as r:
+            return ("raised", r.what), dict(me)
+
+    try:
+        base, _ = run({})
+        correct = {A_: {hA: 1, hO: 0}, Loud: {hL: 1, hO: 0}, O: {hO: 0}}
+        variants = {"the first base looked up earlier": {A_: correct[A_]}, "both bases looked up earlier": {A_: correct[A_], Loud: correct[Loud]}, "object looked up earlier": {O: correct[O]}}
+        bad = None
+        for what, pre in variants.items():
+            got, _ = run(pre)
+            if got != base and bad is None:
+                bad = (what, got, base)
+    except AnalysisError as e:
+        ctx.note(f"{miss.key} not interpretable ({e}); reads of the own cache checked syntactically")
+        rv = recv_name(miss)
+        reads = [x for x in ast.walk(miss.node) if (isinstance(x, ast.Subscript) and isinstance(x.ctx, ast.Load) and isinstance(x.value, ast.Name) and x.value.id == rv) or (isinstance(x, ast.Compare) and any(isinstance(o, (ast.In, ast.NotIn)) for o in x.ops) and any(isinstance(c, ast.Name) and c.id == rv for c in x.comparators)) or (isinstance(x, ast.Call) and call_name(x) in ("dict.__getitem__", "dict.get", f"{rv}.get"))]
+        ctx.ob(f"{miss.key}:ignores-cache", miss.loc(reads[0]) if reads else miss.loc(), "the per-position lookup computes its result from the registrations only, never from entries cached for other classes", not reads, f"`{short(reads[0], 40) if reads else ''}` reads the cache: what a lookup returns depends on which other classes were looked up before")
+        return
+    ctx.ob(
+        f"{miss.key}:ignores-cache",
+        miss.loc(),
+        "the per-position lookup of a class gives the same result whatever entries of other classes are already cached (interpreted for a class with two bases)",
+        bad is None and isinstance(base, dict) and base.get(hL) == base.get(hA),
+        (f"with {bad[0]} the lookup of C(A, Loud) gives {bad[1]} instead of {bad[2]}: the outcome of a call depends on earlier calls" if bad else f"the lookup of C(A, Loud) gives {base}"),
+    )
